@@ -27,7 +27,7 @@ ASSUMPTIONS = ['failpoints sit at python-level step boundaries; a crash inside o
                'a hung pool after a dead worker is killed by the watchdog and judged on the files it left (no liveness claim)',
                'the clean run must report success, otherwise the case is inconclusive']
 MIN_NONTRIVIAL = {'quick': 50, 'thorough': 1500}
-REQUIRED_MONITORS = ['trace:steps_recorded', 'fault:fired', 'fault:raise', 'fault:exit', 'fault:kill', 'fault:persistent', 'oracle:status_read', 'oracle:success_verified',
+REQUIRED_MONITORS = ['trace:steps_recorded', 'fault:fired', 'fault:raise', 'fault:exit', 'fault:kill', 'fault:persistent', 'history:stale_success_of_earlier_run', 'oracle:status_read', 'oracle:success_verified',
                      'clean:success', 'pipeline:single', 'pipeline:multi', 'fault:in_worker']
 SHARD_TIMEOUT = {'quick': 1200, 'thorough': 14400}
 SUCCESS = 'Reached end. All ok!'
@@ -135,10 +135,16 @@ def run_case(case):
         bam = write_bam(os.path.join(dd, 'in.bam'), gen.refs, recs)
         base = {'bam': bam, 'method': method, 'multiprocess': multi, 'threads': 2, 'temp': dd}
 
-        def one(tag, fault):
+        def one(tag, fault, stale_from=None):
             sub = os.path.join(dd, tag)
             os.makedirs(sub)
             out = os.path.join(sub, 'tagged.bam')
+            if stale_from:
+                # history: an earlier, successful run wrote to the same output path - its BAM, index and status file are still there
+                import shutil as _sh
+                for fn in os.listdir(stale_from):
+                    if fn.startswith('tagged.') and os.path.isfile(os.path.join(stale_from, fn)):
+                        _sh.copy(os.path.join(stale_from, fn), os.path.join(sub, fn))
             spec = dict(base, out=out, trace_file=os.path.join(sub, 'trace.jsonl'), fault=fault, temp=sub)
             rc, hung = run_driver(spec, sub, tag, timeout=40 if fault else 400)
             status_path = out.replace('.bam', '.status.txt')
@@ -185,6 +191,13 @@ def run_case(case):
             rest = [x for x in mine if x[0][1] not in key_steps]
             mine = keep[:7] + rest[:2]
         mine = mine_persistent + mine
+        # the set-up phase of a re-run over the output of an earlier successful run (old BAM and index are removed there): always exercised
+        forced_stale = set()
+        if case['part'] == 0:
+            for spec_ in ((('main', 'os.remove', 0, 'after'), 'raise'), (('main', 'os.remove', 0, 'after'), 'kill'), (('main', 'os.remove', 1, 'after'), 'exit'),
+                          (('main', 'write_status', 0, 'before'), 'kill')):
+                mine.insert(0, spec_)
+                forced_stale.add(spec_)
         hung_budget = (1 if case['part'] == 0 else 0) if case['tier'] == 'quick' else 4
         for (proc, stepname, occ, when), kind in mine:
             in_worker = proc != 'main'
@@ -194,7 +207,11 @@ def run_case(case):
                 hung_budget -= 1
             tag = f'f_{len(os.listdir(dd))}'
             fault = {'proc': proc, 'step': stepname, 'occ': occ, 'when': when, 'kind': kind}
-            out, status, rc, hung, trace = one(tag, fault)
+            stale = rr.random() < 0.4 or ((proc, stepname, occ, when), kind) in forced_stale
+            if stale:
+                acc.count('history:stale_success_of_earlier_run')
+                fault['over_stale_output'] = True
+            out, status, rc, hung, trace = one(tag, fault, stale_from=os.path.join(dd, 'clean') if stale else None)
             acc.evals += 1
             fired = any('fired' in e for e in trace)
             if fired:
